@@ -101,6 +101,9 @@ func buildSchema(s *schemaDef) (*graphql.Schema, error) {
 			if !ok {
 				return nil, &resolverError{"no outcome"}
 			}
+			if AsyncHook != nil { // C03 only: the answer may go through a promise
+				return AsyncHook(o.resolve())
+			}
 			return o.resolve()
 		}
 	}
